@@ -82,7 +82,7 @@ def judge(case, out):
     cb_owns_handle = len(nd.split()) > 1 and int(nd.split()[1]) > 0
     toks = out.split()
     fails = []
-    if "HANG" in toks or "PANIC" in toks or "BAD" in toks:
+    if "HANG" in toks or "PANIC" in toks or "BAD" in toks or "TIMEOUT" in toks:
         return ["hang/panic: %s" % out[-60:]]
     handles = len(progs) + (1 if cb_owns_handle else 0)
     pings_since_drain = 0
@@ -164,14 +164,20 @@ def judge(case, out):
     return fails
 
 
-def run_batch(binary, sub, cases, chunk=150):
+def run_batch(binary, sub, cases, chunk=150, timeout=300):
     """one process per `chunk` cases: the scenarios leave their (forgotten) loops, eventfds and threads behind, so a long-lived
     process would run out of file descriptors"""
     res = []
     for i in range(0, len(cases), chunk):
         part = cases[i:i + chunk]
-        p = subprocess.run([binary, sub], input="\n".join(part) + "\n", stdout=subprocess.PIPE, stderr=subprocess.PIPE, text=True, timeout=1200)
-        out = p.stdout.split("\n")[:len(part)]
+        try:
+            p = subprocess.run([binary, sub], input="\n".join(part) + "\n", stdout=subprocess.PIPE, stderr=subprocess.PIPE, text=True, timeout=timeout)
+            out = p.stdout.split("\n")[:len(part)]
+        except subprocess.TimeoutExpired as e:
+            out = ((e.stdout or b"").decode(errors="replace") if isinstance(e.stdout, bytes) else (e.stdout or "")).split("\n")
+            out = [o for o in out if o][:len(part)]
+            res += out + ["TIMEOUT"] * (len(part) - len(out))
+            continue
         res += out + ["PANIC"] * (len(part) - len(out))
     return res
 
